@@ -23,7 +23,7 @@ def main(argv):
     by = {}
     for ob in obs: by[ob.result['verdict']] = by.get(ob.result['verdict'], 0) + 1
     print('obligations', len(obs), by, 'gen %.1fs solve %.1fs' % (t1 - t0, t2 - t1))
-    print('vacuous:', V.check_vacuity(), 'static:', V.static_failures, 'bounded:', V.bounded)
+    print("vacuous:", V.check_vacuity(), "static:", getattr(V, "static_failures", []), "bounded:", getattr(V, "bounded", []))
     slow = sorted(obs, key=lambda o: -o.result['seconds'])[:5]
     for o in slow: print('  slow', o.id, o.result['seconds'], o.result['backend'], o.result['log'])
 
